@@ -136,21 +136,24 @@ fn memory_leg(rep: &mut Report, rng: &mut Rng, d: &MapsDiff, tgt: &Tgt, t: usize
     LegResult { expected: exp.verdict(), seen: if obs.is_ok() { Seen::Applied } else { Seen::Refused } }
 }
 
-/// Writes `nd` (already normalised) with a drawn layout, reads it with the real reader, compares the diff read
-/// with the diff written. Returns the diff the reader delivered.
-fn through_text(rep: &mut Report, rng: &mut Rng, nd: &MapsDiff, what: &str) -> Option<MappingsDiff> {
+/// Writes `raw` with a drawn layout (`Edit(a, a)` goes out as two equal columns), reads the text with the real
+/// reader and compares the diff read with what the text *means* (`normalise(raw)`: equal columns = no change).
+/// Returns the diff the reader delivered.
+fn through_text(rep: &mut Report, rng: &mut Rng, raw: &MapsDiff, what: &str) -> Option<MappingsDiff> {
+    let nd = refmodel::normalise(raw);
     let lay = emit::Layout::draw(rng);
-    let text = emit::emit(nd, &lay, rng);
+    let text = emit::emit(raw, &lay, rng);
     rep.count("text.files_written");
+    if nd.classes != raw.classes { rep.count("text.files_with_equal_columns"); }
     rep.seen("text.layouts", &lay.describe());
-    let input = || json!({"leg": "text", "workload": what, "text": text, "layout": lay.describe(), "diff": nd.render()});
+    let input = || json!({"leg": "text", "workload": what, "text": text, "layout": lay.describe(), "diff_written": raw.render(), "meaning": nd.render()});
     rep.eval();
     match read_text(&text) {
         Err(pi) => { rep.violation(format!("C04 panic {}", pi.site()), json!({"panic": pi.message, "input": input()})); None }
         Ok(Err(e)) => { rep.violation("C04 tinydiff: the reader rejects a well-formed diff text", json!({"error": e, "input": input()})); None }
         Ok(Ok(q)) => {
             let got = maps::from_quill_diff(&q);
-            let dd = cmp::kinds(&cmp::diff_diffs(nd, &got));
+            let dd = cmp::kinds(&cmp::diff_diffs(&nd, &got));
             for (k, w) in &dd { rep.violation(format!("C04 tinydiff: the diff read differs from the diff written: {k}"), json!({"where": w, "input": input(), "read": got.render()})); }
             if dd.is_empty() { rep.count("text.read_equals_written"); Some(q) } else { None }
         }
@@ -161,7 +164,7 @@ fn through_text(rep: &mut Report, rng: &mut Rng, nd: &MapsDiff, what: &str) -> O
 fn text_leg(rep: &mut Report, rng: &mut Rng, d: &MapsDiff, tgt: &Tgt, t: usize, what: &str) -> LegResult {
     let nd = refmodel::normalise(d);
     let exp = ref_apply(&nd, tgt, t);
-    let Some(qd) = through_text(rep, rng, &nd, what) else { return LegResult { expected: exp.verdict(), seen: Seen::NotRun } };
+    let Some(qd) = through_text(rep, rng, d, what) else { return LegResult { expected: exp.verdict(), seen: Seen::NotRun } };
     let input = || json!({"leg": "text", "workload": what, "target": tgt.maps.render(), "target_file_comment": tgt.file_comment, "target_namespace": tgt.maps.namespaces[t], "diff_as_read": nd.render()});
     rep.eval();
     let obs = match real_apply_dyn(rep, &qd, tgt, t, rng, &input) {
@@ -370,7 +373,7 @@ fn pair_case(rng: &mut Rng, rep: &mut Report, i: u64) {
     // text: full and sparse
     if text_expressible(&rd) {
         let want_text = Tgt { maps: want.maps.clone(), file_comment: a.file_comment.clone() };
-        for (leg, nd) in [("text", refmodel::normalise(&rd)), ("text_sparse", refmodel::prune(&rd))] {
+        for (leg, nd) in [("text", rd.clone()), ("text_sparse", refmodel::prune(&rd))] {
             if leg == "text_sparse" { rep.max("max.pairs.nodes_pruned_from_sparse_text", (rd.counts().0 + rd.counts().1 + rd.counts().2 + rd.counts().3 - nd.counts().0 - nd.counts().1 - nd.counts().2 - nd.counts().3) as u64); }
             let Some(q) = through_text(rep, rng, &nd, "pairs") else { continue };
             rep.eval();
@@ -409,7 +412,7 @@ fn history_case(rng: &mut Rng, rep: &mut Report, i: u64) {
         let rd = maps::from_quill_diff(&qd);
         let mode = if text_expressible(&rd) { mode } else { 0 };
         let qd = if mode == 0 { fc = states[to].file_comment.clone(); qd } else {
-            let nd = if mode == 1 { refmodel::normalise(&rd) } else { refmodel::prune(&rd) };
+            let nd = if mode == 1 { rd.clone() } else { refmodel::prune(&rd) };
             match through_text(rep, rng, &nd, "history") { Some(q) => q, None => return }
         };
         rep.eval();
@@ -616,7 +619,7 @@ fn main() {
         for s in Share::ALL { need.push(format!("pairs.share.{}", s.name())); }
         for l in ["class", "field", "method", "parameter"] { for s in ["some_shared", "some_only_in_A", "some_only_in_B", "none_shared"] { need.push(format!("pairs.{l}.{s}")); } }
         for k in ["pairs.class.all_shared", "pairs.domain.judged", "pairs.domain.parameter_source_names", "pairs.domain.partially_named", "pairs.diff.compared_with_reference", "pairs.diff.refused.entry_without_target_name",
-            "pairs.law.memory.held", "pairs.law.text.held", "pairs.law.text_sparse.held", "pairs.law.parameter_source_names_not_carried", "text.read_equals_written", "invariant.walks",
+            "pairs.law.memory.held", "pairs.law.text.held", "pairs.law.text_sparse.held", "pairs.law.parameter_source_names_not_carried", "text.read_equals_written", "text.files_with_equal_columns", "invariant.walks",
             "consistent.namespaces_2.target_1", "consistent.namespaces_3.target_1", "consistent.namespaces_3.target_2", "option.refused", "hostile.misfit_but_target_already_has_the_new_value.name", "hostile.misfit_but_target_already_has_the_new_value.comment",
             "history.returned_to_the_first_state", "history.step_via.memory", "history.step_via.text", "history.step_via.sparse_text"] { need.push(k.to_string()); }
         for a in ["None", "Add", "Remove", "Edit", "EditSame"] { for t in ["absent", "present_matching", "present_mismatching", "present_equal_to_new_value"] { need.push(format!("option.{a}.{t}")); } }
